@@ -413,6 +413,12 @@ def norm_iter_chains(text, m, body_open, body_close):
         if mm.start() < body_open:
             continue
         edits.append(Edit(mm.start(1), text[mm.start(1) : mm.end(1)], "verif_slice_into_set(" + mm.group(2) + ")", "norm:N13"))
+    # `M.entry(K).or_default().push(V)` on a HashMap<usize, Vec<usize>> -> `verif_multimap_push(&mut M, K, V)` (no vstd
+    # specification of the entry API)
+    for mm in re.finditer(r"(?<![\w.])(\w+(?:\s*\.\s*\w+)*)\s*\.entry\(([^()]*)\)\s*\.or_default\(\)\s*\.push\(([^()]*)\)", m[:body_close]):
+        if mm.start() < body_open:
+            continue
+        edits.append(Edit(mm.start(), text[mm.start() : mm.end()], "verif_multimap_push(&mut " + " ".join(text[mm.start(1) : mm.end(1)].split()).replace(" .", ".").replace(". ", ".") + ", " + text[mm.start(2) : mm.end(2)] + ", " + text[mm.start(3) : mm.end(3)] + ")", "norm:N13"))
     # `Q.retain(C)` on a VecDeque -> `verif_deque_retain(&mut Q, C)` (vstd has no specification of VecDeque::retain)
     for mm in _N13_RETAIN.finditer(m, body_open, body_close):
         if closure_at(mm.end()) is None:
@@ -956,6 +962,34 @@ def gen_cut(d, strip_paths):
     edits = []
     dropped = []
     keep = d.opt("keep")
+    if keep is not None and kind == "enum":
+        # N10 for enums: variants not on the keep-list are dropped (a function that constructs or matches a dropped variant
+        # no longer compiles -> exit 2, so nothing that is verified depends on them)
+        if it.header_end is None:
+            raise ExtractError("%s: keep= needs a braced enum" % d.where)
+        keepset = set(keep.split(","))
+        bo = it.header_end - it.start
+        body = text[bo + 1 : len(text) - 1]
+        mbody = m[bo + 1 : len(text) - 1]
+        pos = 0
+        seen = set()
+        for part in _split_fields(body, mbody):
+            mpart = mbody[pos : pos + len(part)]
+            vm = re.search(r"(?:#\[[^\]]*\]\s*)*([A-Za-z_]\w*)", mpart)
+            if vm:
+                vname = vm.group(1)
+                seen.add(vname)
+                if vname not in keepset:
+                    endp = pos + len(part)
+                    if endp < len(body) and body[endp] == ",":
+                        endp += 1
+                    edits.append(Edit(bo + 1 + pos, body[pos:endp], "", "norm:N10"))
+                    dropped.append(vname)
+            pos += len(part) + 1
+        missing = keepset - seen
+        if missing:
+            raise ExtractError("lost anchor: enum %s lacks kept variant(s) %s" % (name, sorted(missing)))
+        keep = None
     if keep is not None:
         if kind != "struct" or it.header_end is None:
             raise ExtractError("%s: keep= needs a braced struct" % d.where)
